@@ -65,4 +65,42 @@ def reservationAt (bs : List UInt8) (q : Nat) : List (Key × Val) :=
 def decodeT20 (bs : List UInt8) : Msg :=
   ⟨.DataLinkManagementMessage, hdr bs ++ flattenList (elemsFrom reservationAt bs 30 40 (min 4 ((8 * bs.length - 40) / 30)))⟩
 
+/-- Type 24 part A (160 or 168 bits): name at 40. -/
+def decodeT24A (bs : List UInt8) : Msg :=
+  ⟨.StaticDataReport, hdr bs ++ [(.part, .sym "PartA"), (.vessel_name, .text (trim (chars bs 40 20)))]⟩
+
+/-- Type 24 part B (168 bits). `model_serial` is the crate's extra reading of bits 66-89 as 4 characters. -/
+def decodeT24B (bs : List UInt8) : Msg :=
+  ⟨.StaticDataReport, hdr bs ++
+    [(.part, .sym "PartB"), (.ship_type, ShipType.parse (field bs 40 8)),
+     (.vendor_id, .text (trim (chars bs 48 3))), (.model_serial, .text (trim (chars bs 66 4))),
+     (.unit_model_code, .nat (field bs 66 4)), (.serial_number, .nat (field bs 70 20)),
+     (.callsign, .text (trim (chars bs 90 7))), (.dimension_to_bow, .nat (field bs 132 9)),
+     (.dimension_to_stern, .nat (field bs 141 9)), (.dimension_to_port, .nat (field bs 150 6)),
+     (.dimension_to_starboard, .nat (field bs 156 6))]⟩
+
+/-- Type 24 with part number 2 or 3. -/
+def decodeT24U (bs : List UInt8) : Msg :=
+  ⟨.StaticDataReport, hdr bs ++ [(.part, .symN "Unknown" (field bs 38 2))]⟩
+
+/-- Number of destination characters present in a (possibly truncated) type 5. -/
+def t5DestChars (bs : List UInt8) : Nat := min 120 (8 * bs.length - 302) / 6
+
+/-- Type 5 as the crate decodes it: everything up to the draught at the standard offsets; the
+    destination has as many complete characters as are present (at most 20); the DTE is the first
+    bit after the destination characters that were read, when there is one. For a full 424-bit
+    message that is bit 422, as specified. -/
+def decodeT05 (bs : List UInt8) : Msg :=
+  let k := t5DestChars bs
+  ⟨.StaticAndVoyageRelatedData, hdr bs ++
+    [(.ais_version, .nat (field bs 38 2)), (.imo_number, .nat (field bs 40 30)),
+     (.callsign, .text (trim (chars bs 70 7))), (.vessel_name, .text (trim (chars bs 112 20))),
+     (.ship_type, ShipType.parse (field bs 232 8)), (.dimension_to_bow, .nat (field bs 240 9)),
+     (.dimension_to_stern, .nat (field bs 249 9)), (.dimension_to_port, .nat (field bs 258 6)),
+     (.dimension_to_starboard, .nat (field bs 264 6)), (.epfd_type, EpfdType.parse (field bs 270 4)),
+     (.eta_month_utc, optNe 0 (field bs 274 4)), (.eta_day_utc, optNe 0 (field bs 278 5)),
+     (.eta_hour_utc, .nat (field bs 283 5)), (.eta_minute_utc, optNe 60 (field bs 288 6)),
+     (.draught, .f32 (field bs 294 8) .div10), (.destination, .text (trim (chars bs 302 k))),
+     (.dte, if 302 + 6 * k < 8 * bs.length then dte (field bs (302 + 6 * k) 1) else .sym "NotReady")]⟩
+
 end AisVerif.Spec
